@@ -837,7 +837,9 @@ def _check_case(res, case):
             if bad:
                 viol("independence", f"perturbing-one-chain-changes-another", f"changing the initial value of chain {j} changed {len(bad)} leaves of other chains, first {bad[:3]}", {"perturbed": j, "leaves": bad[:10]})
             if not changed:
-                raise RuntimeError(f"perturbation of chain {j} had no effect on chain {j}: harness cannot decide independence ({case})")
+                # the supplied per-chain initial value of chain j had no influence on chain j at all:
+                # its initial value is not honoured (kernels in the lattice all depend on their start)
+                viol("initial-values", "own-initial-value-has-no-effect", f"changing the initial value of chain {j} changed nothing in chain {j}: the supplied initial value of that chain is not used", {"perturbed": j})
     res.executions += runs
     res.note([cls, shape, case["seed"], core.digest({k: v.tobytes().hex()[:64] + str(v.shape) for k, v in la.items()})])
     res.sample({"case": case, "runs": runs, "leaves": len(la), "keys": len(keys) if tracer else None}, limit=1)
